@@ -67,5 +67,6 @@ XEvent(r) ==
     \/ /\ r.ev = "bigserde" /\ BigSerdeOK(r) /\ UNCHANGED <<gaVars, xVars>>
     \/ /\ r.ev = "zsthuge" /\ ZstHugeOK(r) /\ UNCHANGED <<gaVars, xVars>>
     \/ /\ r.ev = "zstviews" /\ ZstViewsOK(r) /\ UNCHANGED <<gaVars, xVars>>
+    \/ /\ r.ev = "zstiter" /\ ZstIterOK(r) /\ UNCHANGED <<gaVars, xVars>>
     \/ /\ r.ev = "big_done" /\ r.ok /\ UNCHANGED <<gaVars, xVars>>
 =============================================================================
